@@ -29,15 +29,16 @@ var harnessDirs = map[string]string{ // /verif/harness/<key> -> package dir unde
 }
 
 type HarnessSpec struct {
-	Name     string
-	Prop     string
-	Pkg      string
-	Quick    int // shards in quick tier (0 = not run in quick)
-	Thorough int
-	Steps    int64
-	Timeout  int // seconds per shard
-	NoMerge  bool
-	Fn       *ssa.Function
+	Name          string
+	Prop          string
+	Pkg           string
+	Quick         int // shards in quick tier (0 = not run in quick)
+	Thorough      int
+	Steps         int64
+	Timeout       int // seconds per shard
+	NoMerge       bool
+	MergeConcrete bool
+	Fn            *ssa.Function
 }
 
 type Engine struct {
@@ -255,6 +256,9 @@ func loadEngine(repo, verifDir string, tier int, verbose bool) *Engine {
 							h.Timeout, _ = strconv.Atoi(m[2])
 						case "nomerge":
 							h.NoMerge = m[2] == "1"
+						case "merge":
+							h.MergeConcrete = m[2] == "concrete"
+							h.NoMerge = m[2] == "none"
 						}
 					}
 					e.harnesses[h.Name] = h
